@@ -24,6 +24,9 @@ claimed = {
  "C07": ("proof", "DESIGN.md section 4 C07",
    "Unbounded deductive proof: for every operation `reject` (INVALID arguments => error and the ghost transport trace unchanged) and `once` (every other argument tuple sends exactly one request); isWiegand26 and isCardNumberValid against the arithmetic Wiegand-26 predicate for all 2^32 card numbers and all format lists (loop invariant).",
    BASE_NOTE + "; fmt.Sprintf(%08v)/strconv.Atoi digit model"),
+ "C09": ("other", "DESIGN.md section 4 C09",
+   "Partially decided (level 'other'): deductive proof of the socket / deadline / lock typestate of the three sequential driver methods ut0311.BroadcastTo, SendUDP, SendTCP against assumed contracts of package net on a ghost socket state: exactly one socket per call, closed on every return path; every blocking write/read happens under a deadline and the dial carries one; the process-wide lock is taken iff the bind port is fixed and released on every path; the receive loop exits only with an accepted datagram or a read error (never gives up early by itself). The wall-clock bound, goroutine termination and ut0311.Broadcast / Listen are NOT decided.",
+   BASE_NOTE + "; net and sync.Mutex calls are assumed events on a ghost typestate; codec.Dump trusted"),
  "C12": ("proof", "DESIGN.md section 4 C12",
    "Unbounded deductive proof: bcd.Encode and bcd.Decode are verified against full functional contracts with loop invariants (all strings over the full byte alphabet incl. multi-byte UTF-8, all byte slices), and the two round-trip statements are lemma functions verified modularly against those contracts.",
    BASE_NOTE + "; UTF-8 range step, strings.Builder ghost model, fmt.Errorf != nil"),
